@@ -21,16 +21,17 @@ let z_of_coqz = function Z0 -> BZ.zero | Zpos p -> z_of_pos p | Zneg p -> BZ.neg
 let cz s = coqz_of_z (BZ.of_string s)
 let zs z = BZ.to_string (z_of_coqz z)
 
-let parse_op tok =
+(* the tag (payload) of an inserted item is the 1-based position of its Insert in the history *)
+let parse_op pos tok =
   if tok = "X" then Clear
   else match String.split_on_char ':' tok with
-    | [k; lo; hi] -> if k = "I" then Insert (cz lo, cz hi) else Delete (cz lo, cz hi)
+    | [k; lo; hi] -> if k = "I" then Insert (cz lo, cz hi, coqz_of_z (BZ.of_int (pos + 1))) else Delete (cz lo, cz hi)
     | _ -> failwith ("bad op " ^ tok)
 
 let rec shape b = function
   | Leaf -> Buffer.add_char b '.'
-  | Node (l, lo, hi, mx, h, r) ->
-    Buffer.add_string b (Printf.sprintf "(%s %s %s %s " (zs lo) (zs hi) (zs mx) (zs h));
+  | Node (l, lo, hi, tg, mx, h, r) ->
+    Buffer.add_string b (Printf.sprintf "(%s %s %s %s %s " (zs lo) (zs hi) (zs tg) (zs mx) (zs h));
     shape b l; Buffer.add_char b ' '; shape b r; Buffer.add_char b ')'
 
 let verbose = Array.length Sys.argv > 2 && Sys.argv.(2) = "-v"
@@ -58,7 +59,7 @@ let () =
         | [a; b] -> a, b, None
         | [a; b; c] -> a, b, Some c
         | _ -> failwith "bad line" in
-      let ops = List.map parse_op (List.filter (fun s -> s <> "") (String.split_on_char ' ' ops_s)) in
+      let ops = List.mapi parse_op (List.filter (fun s -> s <> "") (String.split_on_char ' ' ops_s)) in
       let b = Buffer.create 256 in
       let st = ref empty in
       List.iteri (fun i o ->
